@@ -1,6 +1,6 @@
 #!/bin/bash
 # Confirm each agent-written change in a scratch worktree: suite passes with it, demo fails with it, demo passes without it.
-RAW=/var/tmp/seeded-raw
+RAW=${RAW:-/var/tmp/seeded-raw}
 WT=/var/tmp/wt-confirm
 OUT=/var/tmp/seeded-confirm.tsv
 : > $OUT
